@@ -427,13 +427,40 @@ func ruleReaderDiscipline(c *core.Ctx, d *decoderSet, rule string, only func(*ss
 				roots = append(roots, fv)
 			}
 		}
+		// the reader held in a field of the receiver (qiDecoder.r): every load of it
+		fieldRoot := map[ssa.Value]bool{}
+		if fn.Signature.Recv() != nil && len(fn.Params) > 0 {
+			for _, b := range fn.Blocks {
+				for _, in := range b.Instrs {
+					v, ok := in.(ssa.Value)
+					if !ok || !d.isReaderType(v.Type()) {
+						continue
+					}
+					switch x := in.(type) {
+					case *ssa.Field:
+					case *ssa.UnOp:
+						if _, isFA := x.X.(*ssa.FieldAddr); !isFA || x.Op != token.MUL {
+							continue
+						}
+					default:
+						continue
+					}
+					if len(core.AccessPath(v).Fields) > 0 && core.RootOf(v) == ssa.Value(fn.Params[0]) {
+						roots = append(roots, v)
+						fieldRoot[v] = true
+					}
+				}
+			}
+		}
 		dcalls := map[ssa.Instruction]bool{}
 		for _, dc := range d.decoderCallsIn(fn) {
 			dcalls[dc.call.(ssa.Instruction)] = true
 		}
-		for _, root := range roots {
+		for ri, root := range roots {
 			var uses []ssa.Instruction
-			if _, isFV := root.(*ssa.FreeVar); isFV {
+			if fieldRoot[root] {
+				uses = allUses(root)
+			} else if _, isFV := root.(*ssa.FreeVar); isFV {
 				for _, r := range core.Referrers(root) {
 					if u, ok := r.(*ssa.UnOp); ok && u.Op == token.MUL {
 						uses = append(uses, allUses(u)...)
@@ -443,6 +470,9 @@ func ruleReaderDiscipline(c *core.Ctx, d *decoderSet, rule string, only func(*ss
 				uses = allUses(root)
 			}
 			key := fmt.Sprintf("%s/reader:%s", core.FuncKey(fn), root.Name())
+			if fieldRoot[root] {
+				key = fmt.Sprintf("%s/reader-field:%s#%d", core.FuncKey(fn), core.AccessPath(root).String(), ri)
+			}
 			bad := ""
 			for _, u := range uses {
 				if u.Parent() != fn {
